@@ -36,7 +36,7 @@ func countEntries(n *vnode, session, cmid uint64) (count int, last uint64) {
 		if err != nil || l.Type != raft.LogCommand {
 			continue
 		}
-		m := robust.NewMessageFromBytes(l.Data, l.Index)
+		m := robust.NewMessageFromBytes(l.Data, robust.IdFromRaftIndex(l.Index))
 		if m.Session.Id == session && m.ClientMessageId == cmid && (m.Type == robust.IRCFromClient || m.Type == robust.MessageOfDeath) {
 			count++
 		}
@@ -215,7 +215,7 @@ func TestVerifC10(t *testing.T) {
 		if err != nil || l.Type != raft.LogCommand {
 			continue
 		}
-		m := robust.NewMessageFromBytes(l.Data, l.Index)
+		m := robust.NewMessageFromBytes(l.Data, robust.IdFromRaftIndex(l.Index))
 		fsm2.applyRobustMessage(&m, srv2, out2)
 	}
 	it.Release()
